@@ -8,6 +8,7 @@ import (
 	"context"
 	"errors"
 	"fmt"
+	"math/big"
 	"sort"
 	"strings"
 	gosync "sync"
@@ -47,6 +48,8 @@ type Op struct {
 	Ver  string   `json:"ver,omitempty"`
 	Pat  string   `json:"pat,omitempty"`
 	D    int64    `json:"d,omitempty"`
+	Head []RecIn  `json:"head,omitempty"` // PutMany: the batch is Head followed by Rep copies of Recs
+	Rep  int      `json:"rep,omitempty"`
 	D2   int64    `json:"d2,omitempty"` // c06's step W2 (two waiters): context deadline of the second waiter, ms
 }
 
@@ -84,6 +87,24 @@ func Z(v int64) string {
 		return fmt.Sprintf("(-0x%x)%%Z", uint64(-v))
 	}
 	return fmt.Sprintf("0x%x%%Z", uint64(v))
+}
+
+// rel is the instant t relative to the start of the case, ns (exact also for the zero time, whose
+// UnixNano does not fit an int64)
+func (b *Backend) rel(t time.Time) *big.Int {
+	r := big.NewInt(t.Unix() - b.T0.Unix())
+	r.Mul(r, big.NewInt(1000000000))
+	return r.Add(r, big.NewInt(int64(t.Nanosecond()-b.T0.Nanosecond())))
+}
+
+func coqOptRel(p *big.Int) string {
+	if p == nil {
+		return "None"
+	}
+	if p.Sign() < 0 {
+		return fmt.Sprintf("(Some (-0x%x)%%Z)", new(big.Int).Neg(p))
+	}
+	return fmt.Sprintf("(Some 0x%x%%Z)", p)
 }
 
 func CoqOptZ(p *int64) string {
@@ -232,9 +253,16 @@ func (b *Backend) sync() {
 // expires turns an expiration spec into ExpiresAt: a Go duration from now ("1h", "-1h", "30ms", "2h0.5s"),
 // or "<duration>~<fraction>": now+duration cut down to a whole wall-clock second plus the fraction
 // ("2h~900ms": an ExpiresAt whose sub-second part is .9)
-func (b *Backend) expires(exp string) (*time.Time, *int64) {
-	if exp == "" {
+func (b *Backend) expires(exp string) (*time.Time, *big.Int) {
+	switch exp {
+	case "":
 		return nil, nil
+	case "zero": // the zero value of time.Time
+		t := time.Time{}
+		return &t, b.rel(t)
+	case "epoch":
+		t := time.Unix(0, 0)
+		return &t, b.rel(t)
 	}
 	frac := time.Duration(-1)
 	if i := strings.Index(exp, "~"); i >= 0 {
@@ -253,40 +281,37 @@ func (b *Backend) expires(exp string) (*time.Time, *int64) {
 	if frac >= 0 {
 		t = t.Truncate(time.Second).Add(frac)
 	}
-	e := t.UnixNano() - b.T0.UnixNano()
-	return &t, &e
+	return &t, b.rel(t)
 }
 
 // expiresAt: the expiration (relative to T0, ns) the LAST record of the batch with that key carries
-func (b *Backend) expiresAt(key string, recs []kvs.Record) (*time.Time, *int64) {
+func (b *Backend) expiresAt(key string, recs []kvs.Record) (*time.Time, *big.Int) {
 	for i := len(recs) - 1; i >= 0; i-- {
 		if recs[i].Key == key {
 			if recs[i].ExpiresAt == nil {
 				return nil, nil
 			}
-			e := recs[i].ExpiresAt.UnixNano() - b.T0.UnixNano()
-			return recs[i].ExpiresAt, &e
+			return recs[i].ExpiresAt, b.rel(*recs[i].ExpiresAt)
 		}
 	}
 	return nil, nil
 }
 
 // wrote remembers the reference instant of the expiration just written for key
-func (b *Backend) wrote(key string, e *int64) {
-	if e == nil {
+func (b *Backend) wrote(key string, e *big.Int) {
+	if e == nil || !e.IsInt64() {
 		delete(b.lastExp, key)
 		return
 	}
-	b.lastExp[key] = *e + int64(b.FF)
+	b.lastExp[key] = e.Int64() + int64(b.FF)
 }
 
 func (b *Backend) coqRec(r kvs.Record) string {
-	var e *int64
+	var e *big.Int
 	if r.ExpiresAt != nil {
-		x := r.ExpiresAt.UnixNano() - b.T0.UnixNano()
-		e = &x
+		e = b.rel(*r.ExpiresAt)
 	}
-	return fmt.Sprintf("(%s, %s, %s, %s)", hx.Str(r.Key), CoqVal(r.Value), hx.Nat(b.ID(r.Version)), CoqOptZ(e))
+	return fmt.Sprintf("(%s, %s, %s, %s)", hx.Str(r.Key), CoqVal(r.Value), hx.Nat(b.ID(r.Version)), coqOptRel(e))
 }
 
 // Obs is what one executed step looked like
@@ -295,6 +320,7 @@ type Obs struct {
 	CoqOp        string // Gallina xop; "" for a pure clock step
 	CoqOut       string
 	Class        string // head constructor of CoqOut
+	List         string // if not empty: a Gallina expression of type list obs that stands for many steps (tight run)
 }
 
 func (o Obs) Coq() string {
@@ -341,7 +367,7 @@ func (b *Backend) Exec(op Op) (obs Obs, ok bool) {
 	switch op.K {
 	case "C":
 		t, e := b.expires(op.Exp)
-		coqOp = fmt.Sprintf("XOp (Create %s %s %s)", hx.Str(op.Key), CoqVal(ValBytes(op.Val)), CoqOptZ(e))
+		coqOp = fmt.Sprintf("XOp (Create %s %s %s)", hx.Str(op.Key), CoqVal(ValBytes(op.Val)), coqOptRel(e))
 		run(func() {
 			v, err := b.S.Create(ctx, kvs.Record{Key: op.Key, Value: ValBytes(op.Val), Version: "caller-version", ExpiresAt: t})
 			obs.T1 = b.now()
@@ -395,7 +421,7 @@ func (b *Backend) Exec(op Op) (obs Obs, ok bool) {
 		})
 	case "P":
 		t, e := b.expires(op.Exp)
-		coqOp = fmt.Sprintf("XOp (Put %s %s %s)", hx.Str(op.Key), CoqVal(ValBytes(op.Val)), CoqOptZ(e))
+		coqOp = fmt.Sprintf("XOp (Put %s %s %s)", hx.Str(op.Key), CoqVal(ValBytes(op.Val)), coqOptRel(e))
 		run(func() {
 			r, err := b.S.Put(ctx, kvs.Record{Key: op.Key, Value: ValBytes(op.Val), Version: "caller-version", ExpiresAt: t})
 			obs.T1 = b.now()
@@ -408,20 +434,37 @@ func (b *Backend) Exec(op Op) (obs Obs, ok bool) {
 			b.wrote(op.Key, e)
 		})
 	case "N":
-		recs := make([]kvs.Record, len(op.Recs))
-		items := make([]string, len(op.Recs))
-		for i, r := range op.Recs {
-			t, e := b.expires(r.Exp)
-			recs[i] = kvs.Record{Key: r.Key, Value: ValBytes(r.Val), ExpiresAt: t}
-			items[i] = fmt.Sprintf("(%s, %s, %s)", hx.Str(r.Key), CoqVal(ValBytes(r.Val)), CoqOptZ(e))
+		// the batch is Head ++ Rep copies of Recs (Rep <= 1: one copy); the copies of a record share its ExpiresAt
+		mk := func(l []RecIn) ([]kvs.Record, []string) {
+			rs, items := make([]kvs.Record, len(l)), make([]string, len(l))
+			for i, r := range l {
+				t, e := b.expires(r.Exp)
+				rs[i] = kvs.Record{Key: r.Key, Value: ValBytes(r.Val), ExpiresAt: t}
+				items[i] = fmt.Sprintf("(%s, %s, %s)", hx.Str(r.Key), CoqVal(ValBytes(r.Val)), coqOptRel(e))
+			}
+			return rs, items
 		}
-		coqOp = fmt.Sprintf("XOp (PutMany %s)", hx.List(items))
+		head, hitems := mk(op.Head)
+		pat, pitems := mk(op.Recs)
+		recs := append([]kvs.Record(nil), head...)
+		n := op.Rep
+		if n < 1 {
+			n = 1
+		}
+		for i := 0; i < n; i++ {
+			recs = append(recs, pat...)
+		}
+		if len(op.Head) == 0 && op.Rep <= 1 {
+			coqOp = fmt.Sprintf("XOp (PutMany %s)", hx.List(pitems))
+		} else {
+			coqOp = fmt.Sprintf("XOp (PutMany (%s ++ rep_recs %s %s))", hx.List(hitems), hx.Nat(n), hx.List(pitems))
+		}
 		run(func() {
 			err := b.S.PutMany(ctx, recs)
 			obs.T1 = b.now()
 			out = Class(err)
 			if out == "OOk" {
-				for _, r := range op.Recs {
+				for _, r := range recs {
 					_, e := b.expiresAt(r.Key, recs)
 					b.wrote(r.Key, e)
 				}
@@ -430,7 +473,7 @@ func (b *Backend) Exec(op Op) (obs Obs, ok bool) {
 	case "S":
 		t, e := b.expires(op.Exp)
 		ver := b.Version(op.Key, op.Ver)
-		coqOp = fmt.Sprintf("XOp (CasByVersion %s %s %s %s)", hx.Str(op.Key), CoqVal(ValBytes(op.Val)), CoqOptZ(e), hx.Nat(b.ID(ver)))
+		coqOp = fmt.Sprintf("XOp (CasByVersion %s %s %s %s)", hx.Str(op.Key), CoqVal(ValBytes(op.Val)), coqOptRel(e), hx.Nat(b.ID(ver)))
 		run(func() {
 			r, err := b.S.CasByVersion(ctx, kvs.Record{Key: op.Key, Value: ValBytes(op.Val), Version: ver, ExpiresAt: t})
 			obs.T1 = b.now()
@@ -552,6 +595,13 @@ func (b *Backend) RunCase(ops []Op, count func(string)) []Obs {
 	b.Reset()
 	var res []Obs
 	for _, o := range ops {
+		if o.K == "T" {
+			if count != nil {
+				count(b.Name + ":op:T")
+			}
+			res = append(res, b.TightPuts(o)...)
+			continue
+		}
 		obs, ok := b.Exec(o)
 		if count != nil {
 			count(b.Name + ":op:" + o.K)
@@ -567,11 +617,107 @@ func (b *Backend) RunCase(ops []Op, count func(string)) []Obs {
 }
 
 func CoqObsList(l []Obs) string {
-	s := make([]string, len(l))
-	for i, o := range l {
-		s[i] = o.Coq()
+	var segs, cur []string
+	many := false
+	for _, o := range l {
+		if o.List != "" {
+			many = true
+			if len(cur) > 0 {
+				segs, cur = append(segs, hx.List(cur)), nil
+			}
+			segs = append(segs, o.List)
+			continue
+		}
+		cur = append(cur, o.Coq())
 	}
-	return hx.List(s)
+	if !many {
+		return hx.List(cur)
+	}
+	if len(cur) > 0 {
+		segs = append(segs, hx.List(cur))
+	}
+	return "(" + strings.Join(segs, " ++ ") + ")"
+}
+
+// TightPuts is the step T: Rep calls of Put (value Val, no expiration) over Keys in turn, issued back to back
+// with nothing in between; every returned version is an observation. If all calls succeed the run is sent
+// as one compact term (tight_puts of run/KVRun.v), otherwise call by call.
+func (b *Backend) TightPuts(op Op) []Obs {
+	ctx := context.Background()
+	type res struct {
+		r   kvs.Record
+		err error
+	}
+	n := op.Rep
+	out := make([]res, n)
+	val := ValBytes(op.Val)
+	t0 := b.now()
+	b.sync()
+	func() {
+		defer func() { recover() }()
+		for i := 0; i < n; i++ {
+			out[i].err = fmt.Errorf("not run")
+		}
+		for i := 0; i < n; i++ {
+			out[i].r, out[i].err = b.S.Put(ctx, kvs.Record{Key: op.Keys[i%len(op.Keys)], Value: val, Version: "caller-version"})
+		}
+	}()
+	t1 := b.now()
+	skew := int64(b.FF)
+	ok := true
+	for i := range out {
+		r := out[i].r
+		if out[i].err != nil || r.Key != op.Keys[i%len(op.Keys)] || r.ExpiresAt != nil || string(r.Value) != string(val) {
+			ok = false
+		}
+	}
+	var obs []Obs
+	if ok {
+		var runs []string
+		start, cnt := 0, 0
+		for i := range out {
+			id := b.ID(out[i].r.Version)
+			b.note(out[i].r.Key, out[i].r.Version)
+			if cnt > 0 && id == start+cnt {
+				cnt++
+				continue
+			}
+			if cnt > 0 {
+				runs = append(runs, fmt.Sprintf("(%s, %s)", hx.Nat(start), hx.Nat(cnt)))
+			}
+			start, cnt = id, 1
+		}
+		if cnt > 0 {
+			runs = append(runs, fmt.Sprintf("(%s, %s)", hx.Nat(start), hx.Nat(cnt)))
+		}
+		ks := make([]string, len(op.Keys))
+		for i, k := range op.Keys {
+			ks[i] = hx.Str(k)
+		}
+		obs = []Obs{{T0: t0, T1: t1, Skew: skew, Class: "ORec",
+			List: fmt.Sprintf("tight_puts %s %s %s %s %s %s", Z(t0), Z(t1), Z(skew), hx.List(ks), CoqVal(val), hx.List(runs))}}
+	} else {
+		for i := range out {
+			k := op.Keys[i%len(op.Keys)]
+			o := Obs{T0: t0, T1: t1, Skew: skew, CoqOp: fmt.Sprintf("XOp (Put %s %s None)", hx.Str(k), CoqVal(val))}
+			if c := Class(out[i].err); c != "OOk" {
+				o.CoqOut = "OOther"
+				if c != "OOk" && out[i].err.Error() != "not run" {
+					o.CoqOut = c
+				}
+			} else {
+				o.CoqOut = "ORec " + b.coqRec(out[i].r)
+				b.note(k, out[i].r.Version)
+			}
+			o.Class = strings.SplitN(o.CoqOut, " ", 2)[0]
+			obs = append(obs, o)
+		}
+	}
+	if b.MR != nil && b.Tick > 0 {
+		b.MR.FastForward(b.Tick)
+		b.FF += b.Tick
+	}
+	return obs
 }
 
 const CoqHeader = "From Coq Require Import List ZArith NArith.\nFrom GL Require Import spec.KV run.KVRun"
